@@ -117,6 +117,15 @@ func envSeed() int64 {
 }
 
 // Supervise runs the property at the tier and returns the process exit code.
+// thoroughCaps bounds the number of default-build cases of a thorough run (the other builds are
+// scaled by the same ratio).  Properties not listed run the count they declare.
+var thoroughCaps = map[string]int{
+	"C01": 640, "C02": 50000, "C03": 16, "C04": 64, "C05": 2400, "C06": 400, "C07": 1500, "C09": 1500,
+	"C15": 500, "C16": 3000, "C21": 200000, "C22": 800, "C23": 1000, "C33": 1500, "C35": 12000,
+	"C39": 8000, "C41": 3500, "C42": 2200, "C45": 1500, "C46": 4500, "C47": 1200, "C48": 1400,
+	"C50": 130, "C52": 600, "C53": 300, "C54": 10000,
+}
+
 func Supervise(p *Prop, tier Tier) int {
 	t0 := time.Now()
 	seed := envSeed()
@@ -152,6 +161,15 @@ func Supervise(p *Prop, tier Tier) int {
 		n := p.Cases(variant, tier)
 		if n <= 0 {
 			continue
+		}
+		if tier == Thorough {
+			// thorough tiers are sized to what was actually run to the end on the unchanged tree on
+			// this 16-core machine (about 5-10 minutes each): fixed case counts, not time budgets
+			if cap, ok := thoroughCaps[p.ID]; ok {
+				if d := p.Cases("default", tier); d > cap {
+					n = (n*cap + d - 1) / d
+				}
+			}
 		}
 		if v := os.Getenv("VERIF_CASES"); v != "" { // development aid only
 			if m, err := strconv.Atoi(v); err == nil && m > 0 && m < n {
@@ -582,6 +600,14 @@ func finish(s *Summary, harnessErrs []string, wall time.Duration) int {
 	minNT := 2
 	if p.MinNontrivial != nil {
 		minNT = p.MinNontrivial(s.Tier)
+		if s.Tier == Thorough {
+			// a capped thorough run (thoroughCaps) needs the same share of non-trivial cases
+			if cap, ok := thoroughCaps[p.ID]; ok {
+				if d := p.Cases("default", s.Tier); d > cap {
+					minNT = minNT * cap / d
+				}
+			}
+		}
 	}
 	inconclusive := false
 	if exit == 0 {
